@@ -3,7 +3,7 @@
   equal the formulas the encoder cites offsets with, every out-of-band group sits at its cited
   offset, the directory serves the core stream of each type (extras of the same type are overridden).
 -/
-import MdProofs.Lemmas.EncodeNames
+import MdProofs.Lemmas.EncodeModules
 import MdProofs.Lemmas.BytesStreams
 namespace MdModel.Encode
 open MdModel MdModel.Dump MdModel.Gen.Layouts MdModel.Gen.LayoutsC02
@@ -12,18 +12,6 @@ open MdModel MdModel.Dump MdModel.Gen.Layouts MdModel.Gen.LayoutsC02
 
 theorem listHeader_length (e : Endian) (pad : Bool) (n : Nat) : (listHeader e pad n).length = listHeaderSize pad := by
   cases pad <;> simp [listHeader, listHeaderSize]
-
-theorem moduleRecs_length (off : Nat) (ms : List MModule) : (moduleRecs off ms).length = ms.length := by
-  induction ms generalizing off with
-  | nil => rfl
-  | cons m ms ih => simp [moduleRecs, ih]
-
-theorem encCv_length (e : Endian) (cv : MCv) : (encCv e cv).length = cvSize cv := by
-  cases cv <;> simp [encCv, cvSize] <;> omega
-
-theorem oobModule_length (e : Endian) (m : MModule) : (oobModule e m).length = oobModuleSize m := by
-  unfold oobModule oobModuleSize
-  cases m.cv <;> simp [encString_length, encCv_length]
 
 theorem oobModules_length (e : Endian) (ms : List MModule) : (oobModules e ms).length = oobModulesSize ms := by
   induction ms with
@@ -45,6 +33,17 @@ theorem encodeStreams_length (e : Endian) (flags : Nat) (ss : List (Nat × List 
     (encodeStreams e flags ss).length = 32 + 12 * ss.length + sumSizes (ss.map fun x => (x.1, x.2.length)) := by
   simp [encodeStreams, streamsBytes_length]; omega
 
+theorem optList_map {α β γ : Type} (o : Option α) (g : α → β) (h : β → γ) :
+    (optList o g).map h = optList o (fun a => h (g a)) := by
+  cases o <;> rfl
+
+theorem mem_optList {α β : Type} {o : Option α} {g : α → β} {b : β} :
+    b ∈ optList o g ↔ ∃ a, o = some a ∧ g a = b := by
+  cases o <;> simp [optList, eq_comm]
+
+theorem optList_sublist_const {α β : Type} (o : Option α) (t : β) : List.Sublist (optList o (fun _ => t)) [t] := by
+  cases o <;> simp [optList]
+
 /-- the sizes the encoder computes offsets with are the sizes of the streams it writes -/
 theorem coreStreams_sizes (m : DumpModel) (e : Endian) (f : MemForm) :
     (coreStreams m e f).map (fun x => (x.1, x.2.length)) = coreStreamSizes m f := by
@@ -58,7 +57,7 @@ theorem coreStreams_sizes (m : DumpModel) (e : Endian) (f : MemForm) :
   have h168 : Layout.size MINIDUMP_EXCEPTION_STREAM = 168 := by decide
   have h56 : Layout.size SYSTEM_INFO_LAYOUT = 56 := by decide
   unfold coreStreams coreStreamSizes
-  simp only [List.map_append, List.map_cons, List.map_nil]
+  simp only [List.map_append, List.map_cons, List.map_nil, optList_map]
   congr 1
   · congr 1
     · simp only [List.cons.injEq, Prod.mk.injEq, true_and, and_true]
@@ -71,8 +70,8 @@ theorem coreStreams_sizes (m : DumpModel) (e : Endian) (f : MemForm) :
       · simp [encMemInfoList, exListHeader, h48']; omega
       · simp [encThreadNames, listHeader_length, nameRecs_length, h12]; omega
       · simp [encUnloadedList, exListHeader, unloadedRecs_length, h24]; omega
-    · cases m.exception <;> simp [encException, h168]
-  · cases m.sysInfo <;> simp [encSysInfo, h56]
+    · simp [encException, h168]
+  · simp [encSysInfo, h56]
 
 theorem allStreams_sizes (m : DumpModel) (e : Endian) (f : MemForm) :
     (allStreams m e f).map (fun x => (x.1, x.2.length)) = streamSizes m f := by
@@ -177,17 +176,41 @@ structure WellFormed (m : DumpModel) (f : MemForm) : Prop where
   memInfo : ∀ i ∈ m.memInfo, MemInfoFits i
   names : ∀ n ∈ m.threadNames, n.1 < 2 ^ 32 ∧ ValidName n.2
   unloaded : ∀ u ∈ m.unloaded, UnloadedFits u
+  modules : ∀ x ∈ m.modules, ModuleFits x
+  exception : ∀ x, m.exception = some x → ExcFits x
+  sysInfo : ∀ x, m.sysInfo = some x → SysInfoFits x
   extra : ∀ x ∈ m.extra, x.1 ∈ coreTypes m f
 
+/-- the types of the six streams always present -/
+def fixedTypes (f : MemForm) : List Nat :=
+  [ST_THREAD_LIST, ST_MODULE_LIST, (match f with | .mem => ST_MEMORY_LIST | .mem64 => ST_MEMORY64_LIST),
+   ST_MEMORY_INFO_LIST, ST_THREAD_NAMES, ST_UNLOADED_MODULE_LIST]
+
+/-- every type the encoder can emit, in its order -/
+def allTypes (f : MemForm) : List Nat := fixedTypes f ++ [ST_EXCEPTION] ++ [ST_SYSTEM_INFO]
+
+theorem coreTypes_eq (m : DumpModel) (f : MemForm) :
+    coreTypes m f = fixedTypes f ++ optList m.exception (fun _ => ST_EXCEPTION) ++
+      optList m.sysInfo (fun _ => ST_SYSTEM_INFO) := by
+  unfold coreTypes coreStreamSizes fixedTypes
+  simp only [List.map_append, List.map_cons, List.map_nil, optList_map]
+  cases f <;> rfl
+
+theorem coreTypes_sublist (m : DumpModel) (f : MemForm) : List.Sublist (coreTypes m f) (allTypes f) := by
+  rw [coreTypes_eq]
+  unfold allTypes
+  exact ((List.Sublist.refl _).append (optList_sublist_const _ _)).append (optList_sublist_const _ _)
+
+theorem allTypes_nodup (f : MemForm) : (allTypes f).Nodup := by cases f <;> decide
+
+theorem coreTypes_nodup (m : DumpModel) (f : MemForm) : (coreTypes m f).Nodup :=
+  (allTypes_nodup f).sublist (coreTypes_sublist m f)
+
 theorem coreTypes_lt (m : DumpModel) (f : MemForm) : ∀ t ∈ coreTypes m f, t < 2 ^ 32 := by
-  have hall : (coreTypes m f).all (fun t => decide (t < 2 ^ 32)) = true := by
-    unfold coreTypes coreStreamSizes
-    cases f <;> cases m.exception <;> cases m.sysInfo <;>
-      simp [ST_THREAD_LIST, ST_MODULE_LIST, ST_MEMORY_LIST, ST_MEMORY64_LIST, ST_MEMORY_INFO_LIST, ST_THREAD_NAMES,
-        ST_UNLOADED_MODULE_LIST, ST_EXCEPTION, ST_SYSTEM_INFO, ST_SystemInfoStream]
   intro t ht
-  have := List.all_eq_true.mp hall t ht
-  simpa using this
+  have h := (coreTypes_sublist m f).subset ht
+  have hall : ∀ t ∈ allTypes f, t < 2 ^ 32 := by cases f <;> decide
+  exact hall t h
 
 theorem oobStart_le_stop (m : DumpModel) (f : MemForm) : oobStart m f ≤ (oobOffsets m f).stop := by
   simp only [oobOffsets]; omega
@@ -249,61 +272,109 @@ theorem streamRes_notFound {α : Type} {d : Dump} {b : Bytes} {ty : Nat} {reader
 
 /-! ## the core stream of each type -/
 
+theorem lastOf_of_mem_nodup {α : Type} (ty : Nat) : ∀ (ss : List (Nat × α)) (a : α), (ty, a) ∈ ss →
+    (ss.map (·.1)).Nodup → lastOf ty ss = some a := by
+  intro ss
+  induction ss with
+  | nil => intro a h; simp at h
+  | cons p rest ih =>
+    intro a hmem hnd
+    obtain ⟨t, x⟩ := p
+    simp only [List.map_cons, List.nodup_cons] at hnd
+    simp only [lastOf]
+    simp only [List.mem_cons, Prod.mk.injEq] at hmem
+    cases hmem with
+    | inl h =>
+      obtain ⟨h1, h2⟩ := h
+      subst h1 h2
+      have : lastOf ty rest = none := by
+        apply lastOf_none_of_forall
+        intro y hy heq
+        exact hnd.1 (heq ▸ List.mem_map_of_mem hy)
+      simp [this]
+    | inr h =>
+      rw [ih a h hnd.2]
+
+/-- a stream the encoder emits is the last of its type among the core streams -/
+theorem core_of_mem (m : DumpModel) (e : Endian) (f : MemForm) {ty : Nat} {bs : List UInt8}
+    (h : (ty, bs) ∈ coreStreams m e f) : lastOf ty (coreStreams m e f) = some bs := by
+  apply lastOf_of_mem_nodup ty _ bs h
+  rw [coreStreams_types]
+  exact coreTypes_nodup m f
+
 section core
 variable (m : DumpModel) (e : Endian) (f : MemForm)
 
 theorem core_threads : lastOf ST_THREAD_LIST (coreStreams m e f) =
-    some (encThreadList e m.pad (oobOffsets m f).threads m.threads) := by
-  unfold coreStreams
-  cases f <;> cases m.exception <;> cases m.sysInfo <;>
-    simp [lastOf, ST_THREAD_LIST, ST_MODULE_LIST, ST_MEMORY_LIST, ST_MEMORY64_LIST, ST_MEMORY_INFO_LIST, ST_THREAD_NAMES,
-      ST_UNLOADED_MODULE_LIST, ST_EXCEPTION, ST_SYSTEM_INFO, ST_SystemInfoStream]
+    some (encThreadList e m.pad (oobOffsets m f).threads m.threads) :=
+  core_of_mem m e f (by simp [coreStreams])
 
-theorem core_memInfo : lastOf ST_MEMORY_INFO_LIST (coreStreams m e f) = some (encMemInfoList e m.memInfo) := by
-  unfold coreStreams
-  cases f <;> cases m.exception <;> cases m.sysInfo <;>
-    simp [lastOf, ST_THREAD_LIST, ST_MODULE_LIST, ST_MEMORY_LIST, ST_MEMORY64_LIST, ST_MEMORY_INFO_LIST, ST_THREAD_NAMES,
-      ST_UNLOADED_MODULE_LIST, ST_EXCEPTION, ST_SYSTEM_INFO, ST_SystemInfoStream]
+theorem core_modules : lastOf ST_MODULE_LIST (coreStreams m e f) =
+    some (encModuleList e m.pad (oobOffsets m f).modules m.modules) :=
+  core_of_mem m e f (by simp [coreStreams])
+
+theorem core_memInfo : lastOf ST_MEMORY_INFO_LIST (coreStreams m e f) = some (encMemInfoList e m.memInfo) :=
+  core_of_mem m e f (by simp [coreStreams])
 
 theorem core_memory : lastOf ST_MEMORY_LIST (coreStreams m e .mem) =
-    some (encMemoryList e m.pad (oobOffsets m .mem).memory m.memory) := by
-  unfold coreStreams
-  cases m.exception <;> cases m.sysInfo <;>
-    simp [lastOf, ST_THREAD_LIST, ST_MODULE_LIST, ST_MEMORY_LIST, ST_MEMORY64_LIST, ST_MEMORY_INFO_LIST, ST_THREAD_NAMES,
-      ST_UNLOADED_MODULE_LIST, ST_EXCEPTION, ST_SYSTEM_INFO, ST_SystemInfoStream]
+    some (encMemoryList e m.pad (oobOffsets m .mem).memory m.memory) :=
+  core_of_mem m e .mem (by simp [coreStreams])
 
 theorem core_memory64 : lastOf ST_MEMORY64_LIST (coreStreams m e .mem64) =
-    some (encMemory64List e (oobOffsets m .mem64).memory m.memory) := by
-  unfold coreStreams
-  cases m.exception <;> cases m.sysInfo <;>
-    simp [lastOf, ST_THREAD_LIST, ST_MODULE_LIST, ST_MEMORY_LIST, ST_MEMORY64_LIST, ST_MEMORY_INFO_LIST, ST_THREAD_NAMES,
-      ST_UNLOADED_MODULE_LIST, ST_EXCEPTION, ST_SYSTEM_INFO, ST_SystemInfoStream]
+    some (encMemory64List e (oobOffsets m .mem64).memory m.memory) :=
+  core_of_mem m e .mem64 (by simp [coreStreams])
 
 theorem core_names : lastOf ST_THREAD_NAMES (coreStreams m e f) =
-    some (encThreadNames e m.pad (oobOffsets m f).names m.threadNames) := by
-  unfold coreStreams
-  cases f <;> cases m.exception <;> cases m.sysInfo <;>
-    simp [lastOf, ST_THREAD_LIST, ST_MODULE_LIST, ST_MEMORY_LIST, ST_MEMORY64_LIST, ST_MEMORY_INFO_LIST, ST_THREAD_NAMES,
-      ST_UNLOADED_MODULE_LIST, ST_EXCEPTION, ST_SYSTEM_INFO, ST_SystemInfoStream]
+    some (encThreadNames e m.pad (oobOffsets m f).names m.threadNames) :=
+  core_of_mem m e f (by simp [coreStreams])
 
 theorem core_unloaded : lastOf ST_UNLOADED_MODULE_LIST (coreStreams m e f) =
-    some (encUnloadedList e (oobOffsets m f).unloaded m.unloaded) := by
-  unfold coreStreams
-  cases f <;> cases m.exception <;> cases m.sysInfo <;>
-    simp [lastOf, ST_THREAD_LIST, ST_MODULE_LIST, ST_MEMORY_LIST, ST_MEMORY64_LIST, ST_MEMORY_INFO_LIST, ST_THREAD_NAMES,
-      ST_UNLOADED_MODULE_LIST, ST_EXCEPTION, ST_SYSTEM_INFO, ST_SystemInfoStream]
+    some (encUnloadedList e (oobOffsets m f).unloaded m.unloaded) :=
+  core_of_mem m e f (by simp [coreStreams])
+
+theorem core_exception {x : MException} (h : m.exception = some x) : lastOf ST_EXCEPTION (coreStreams m e f) =
+    some (encException e (oobOffsets m f).exc x) :=
+  core_of_mem m e f (by simp [coreStreams, optList, h])
+
+theorem core_sysInfo {x : MSysInfo} (h : m.sysInfo = some x) : lastOf ST_SYSTEM_INFO (coreStreams m e f) =
+    some (encSysInfo e (oobOffsets m f).csd x) :=
+  core_of_mem m e f (by simp [coreStreams, optList, h])
+
+theorem mem_coreTypes {t : Nat} : t ∈ coreTypes m f ↔
+    t ∈ fixedTypes f ∨ (m.exception.isSome ∧ t = ST_EXCEPTION) ∨ (m.sysInfo.isSome ∧ t = ST_SYSTEM_INFO) := by
+  rw [coreTypes_eq]
+  simp only [List.mem_append, mem_optList, Option.isSome_iff_exists, or_assoc]
+  constructor
+  · rintro (h | ⟨a, h1, h2⟩ | ⟨a, h1, h2⟩)
+    · exact .inl h
+    · exact .inr (.inl ⟨⟨a, h1⟩, h2.symm⟩)
+    · exact .inr (.inr ⟨⟨a, h1⟩, h2.symm⟩)
+  · rintro (h | ⟨⟨a, h1⟩, h2⟩ | ⟨⟨a, h1⟩, h2⟩)
+    · exact .inl h
+    · exact .inr (.inl ⟨a, h1, h2.symm⟩)
+    · exact .inr (.inr ⟨a, h1, h2.symm⟩)
 
 theorem no_memory64_in_mem : ST_MEMORY64_LIST ∉ coreTypes m .mem := by
-  unfold coreTypes coreStreamSizes
-  cases m.exception <;> cases m.sysInfo <;>
-    simp [ST_THREAD_LIST, ST_MODULE_LIST, ST_MEMORY_LIST, ST_MEMORY64_LIST, ST_MEMORY_INFO_LIST, ST_THREAD_NAMES,
-      ST_UNLOADED_MODULE_LIST, ST_EXCEPTION, ST_SYSTEM_INFO, ST_SystemInfoStream]
+  intro h
+  exact absurd ((coreTypes_sublist m .mem).subset h) (by decide)
 
 theorem no_memory_in_mem64 : ST_MEMORY_LIST ∉ coreTypes m .mem64 := by
-  unfold coreTypes coreStreamSizes
-  cases m.exception <;> cases m.sysInfo <;>
-    simp [ST_THREAD_LIST, ST_MODULE_LIST, ST_MEMORY_LIST, ST_MEMORY64_LIST, ST_MEMORY_INFO_LIST, ST_THREAD_NAMES,
-      ST_UNLOADED_MODULE_LIST, ST_EXCEPTION, ST_SYSTEM_INFO, ST_SystemInfoStream]
+  intro h
+  exact absurd ((coreTypes_sublist m .mem64).subset h) (by decide)
+
+theorem no_exception (h : m.exception = none) : ST_EXCEPTION ∉ coreTypes m f := by
+  rw [mem_coreTypes]
+  rintro (h0 | ⟨h1, _⟩ | ⟨_, h2⟩)
+  · cases f <;> exact absurd h0 (by decide)
+  · simp [h] at h1
+  · exact absurd h2 (by decide)
+
+theorem no_sysInfo (h : m.sysInfo = none) : ST_SYSTEM_INFO ∉ coreTypes m f := by
+  rw [mem_coreTypes]
+  rintro (h0 | ⟨_, h2⟩ | ⟨h1, _⟩)
+  · cases f <;> exact absurd h0 (by decide)
+  · exact absurd h2 (by decide)
+  · simp [h] at h1
 
 end core
 
